@@ -409,6 +409,12 @@ def run_check():
         return np.asarray(specpart.partition(np.ascontiguousarray(z, dtype=np.float32), int(ih)))
 
     thorough = ck.tier == "thorough"
+    # the C text differs from the one the transliteration was validated against (Props/C04ctext.lean no longer checks):
+    # search as deeply as the thorough tier does, whatever tier was asked for
+    escalate = any("c_text" in b for b in (ck.audit or {}).get("broken", []))
+    if escalate and not thorough:
+        ck.extra["escalated"] = "specpart.c changed (C04.specpart_c_text broken): thorough-tier search used to look for a failing input"
+        thorough = True
     rng = ck.rng
 
     # ---- (i) neighbour tables, real C vs Lean, all mk, mth ≤ 40
@@ -485,6 +491,10 @@ def run_check():
         else:
             nk, nth = rng.randint(2, 40), rng.randint(2, 72)
         z32, kind = gen_float_grid(rng, nk, nth)
+        if rng.random() < 0.25:
+            # calm-sea magnitudes: the same shape scaled by an exact power of two down to ranges of 1e-9..1e-6
+            z32 = (z32 * np.float32(2.0 ** -rng.randint(18, 32))).astype(np.float32)
+            kind += ":tiny"
         fcases.append((z32, rng.choice([2, 3, 5, 20, 50, 100, 100, 100, 250]), kind))
     fcases += replay_float
     # pre-pass: the same C routine in a child process (a hang or crash of the native code must not take the harness down)
